@@ -103,11 +103,14 @@ class Registry(object):
         self.d2t = {}
         self.t2a = {}
 
-    def add(self, tok, arr):
+    def add(self, tok, arr, strict=True):
         tok = tuple(tok)
         d = digest(arr)
         if d in self.d2t and self.d2t[d] != tok:
-            raise RuntimeError("MACHINERY: digest collision between %r and %r" % (self.d2t[d], tok))
+            if strict:
+                raise RuntimeError("MACHINERY: digest collision between %r and %r" % (self.d2t[d], tok))
+            self.t2a[tok] = arr      # prescribed data may repeat: keep the first owner of the digest
+            return
         self.d2t[d] = tok
         self.t2a[tok] = arr
 
@@ -185,7 +188,7 @@ def component(AP, cfg, reg, lv, b, fi, values=None):
         arr = np.ascontiguousarray(values(lv, b, fi, box), dtype=np.float64).ravel(order="F")
     else:
         arr = token_array(cfg.seed, tok, box_cells(box), cfg.payload)
-    reg.add(tok, arr)
+    reg.add(tok, arr, strict=values is None)
     return arr
 
 
